@@ -344,6 +344,18 @@ def _write_sites(prog):
             f = prog.fns[w["fn"]]
             if f.j.get("stub"):
                 continue
+            if w["kind"] == "borrow_mut" and "&mut " in f.body.locals[0]["ty"]:
+                continue        # an accessor handing out `&mut` to the field: whoever receives it may write, the accessor does not
+            if w["kind"] == "borrow_mut" and isinstance(w["idx"], int):
+                # a `&mut` handed to a crate-local function is not a write by itself: what that function assigns is its own
+                # business (and is propagated from it); handed to std (`push_back`, `insert`, `as_mut`, ..) it is the mutation
+                cons = prog.borrow_consumer(w["fn"], w["bb"], w["idx"])
+                if cons is not None:
+                    inst_ = prog.ident(w["fn"])
+                    c_ = prog.insts[inst_].calls.get(cons[0]) if inst_ is not None else None
+                    k_ = prog.callee_key(c_) if c_ else None
+                    if k_ in prog.fns:
+                        continue
             # (`x.f = v` and `match &mut x.f { .. }` / `x.f.as_mut()` are two spellings of updating the field)
             out.setdefault((w["fn"], "%s.%s" % (adt, fld)), []).append(w["bb"])
             if w["kind"] == "assign":
